@@ -2,6 +2,7 @@ SPECIFICATION Spec
 CONSTANTS
   Dials <- DialsD
   Accepts <- AcceptsD
+  AbortDials <- NoAborts
   DSide <- CSide
   DId <- CId
   ASide <- CSide
